@@ -551,15 +551,24 @@ def check_outputs(run, slot, algo, policy, outs, where, regime):
                       f"{where}: {algo} returned ordered={out.ordered}")
         got_cost = out.cost()
         if not (got_cost == recount):
-            # before blaming the model: is the returned object a solution of the problem the
-            # caller gave?  (a refined or re-read input that carries other unit costs makes
-            # cost() evaluate another problem - a defect of the code under test, not of ours)
+            # is the returned object a solution of the problem the caller gave?  (a refined or
+            # re-read input that carries other unit costs makes cost() evaluate another problem)
             want = spec_costs(spec)
             have = _costs_of(out.input)
             run.check(have == {k: float(v) for k, v in want.items()}, E1_PROPS,
                       f"{run.focus or prop}.solution-of-another-problem",
                       lambda: f"{where}: {algo}({policy}) returned a solution whose input carries "
                               f"unit costs {have}, the caller's input has {want}; input {spec}")
+            # The cost the package reports for a solution it returned is not the cost of that
+            # solution under the documented event model (independent recount).  Every solver
+            # property is stated in terms of that model, and the solvers rank their candidates
+            # with this evaluator, so this is reported as a violation of the property in focus
+            # (it would be an error of the reference model only if the recount were wrong: the
+            # same risk as for any oracle, and never seen on the unchanged tree).
+            run.check(False, E1_PROPS, f"{run.focus or prop}.reported-cost-not-event-model-cost",
+                      f"{where}: {algo}({policy}) returned a solution for which cost() = "
+                      f"{got_cost} but the event-by-event recount under the documented model is "
+                      f"{recount}: {canon.output_key(out, labelled)} on {spec}")
             raise HarnessError(
                 f"MODEL-DISAGREEMENT {where}: package cost() = {got_cost}, independent recount "
                 f"= {recount} for {canon.output_key(out, labelled)} on {spec}")
@@ -735,6 +744,11 @@ def do_solve(run, slots, op, idx, regime):
     run.event(idx, "solve", algo, policy, op["order"], ORACLE.consults, repr(cost),
               sorted(keyset))
     probe_case(run, slot, algo, outs)
+    if run.focus == "C09":
+        # "running the computation again": a solve is itself a piece of history of the object
+        # (the solvers name nodes, and may leave other traces on it); where no brute-force
+        # oracle runs, every later solve on the object is compared with a fresh one
+        slot.dirty.add("solved by " + algo)
 
 
 def probe_case(run, slot, algo, outs):
